@@ -28,10 +28,16 @@ PROP = 'C15'
 INCANTATION = ' Signa inter verba conjugo, symbolum infixus evoco! '
 
 PROFILES = {
-    'quick': dict(ex_fuel=1, all_sites_programs=24, sampled_sites=2,
+    # fill_len: contents enumerated exhaustively up to this length;
+    # fill3_sample: simulated walks of LLexFill for longer contents;
+    # extra_programs: programs (beyond all_sites_programs) that get seeded
+    # single sites and parentheses in addition to the all-spaces layout
+    'quick': dict(ex_fuel=1, all_sites_programs=20, sampled_sites=2,
+                  extra_programs=None,
                   sim_num=30, sim_fuel=4, multi_num=60, multi_depth=4,
-                  fill_len=2, fill3_sample=120, hosts=3, shards=8),
+                  fill_len=2, fill3_sample=2, hosts=3, shards=8),
     'thorough': dict(ex_fuel=2, all_sites_programs=260, sampled_sites=2,
+                     extra_programs=6000,
                      sim_num=500, sim_fuel=5, multi_num=1500, multi_depth=6,
                      fill_len=3, fill3_sample=None, hosts=6, shards=16),
 }
@@ -403,10 +409,23 @@ def Run(tier):
     f2 = ex.submit(sg.RunGen, 'c15_sim', prof['sim_fuel'], 2, imports=False,
                    simulate='num=%d' % prof['sim_num'], depth=400,
                    seed=seed + 1, workers=4)
-    f3 = ex.submit(sg.RunFills, 'c15', 3)
+    f3 = ex.submit(sg.RunFills, 'c15', prof['fill_len'])
+    f3b = (ex.submit(sg.RunFills, 'c15_sim', 3,
+                     simulate='num=%d' % prof['fill3_sample'], seed=seed + 3)
+           if prof['fill3_sample'] else None)
     ex_cases, modelled, r1 = f1.result()
     sim_cases, _, r2 = f2.result()
     fills, r5 = f3.result()
+    if f3b:
+      more, r5b = f3b.result()
+      if not r5b.ok:
+        print(r5b.out[-3000:])
+        return Fail(tier, clock, 'LLexFill simulation failed')
+      have = set(json.dumps(f['syms']) for f in fills)
+      for f in more:
+        if json.dumps(f['syms']) not in have:
+          have.add(json.dumps(f['syms']))
+          fills.append(f)
   if not r1.ok or not ex_cases:
     print(r1.out[-3000:])
     return Fail(tier, clock, 'LSyntaxGen exhaustive run failed')
@@ -470,12 +489,19 @@ def Run(tier):
     variants.setdefault(p['id'], []).append(Variant(lay))
   # every other program: the all-spaces layout, a few seeded single sites and
   # one pair of redundant parentheses
-  for t in rest_tc + sim_tc:
+  others = rest_tc + sim_tc
+  extra_ids = set(t['id'] for t in others)
+  if prof['extra_programs'] is not None and len(others) > prof['extra_programs']:
+    extra_ids = set(t['id'] for t in
+                    common.Rng('c15x').sample(others, prof['extra_programs']))
+  for t in others:
     vs = variants.setdefault(t['id'], [])
     n = len(t['toks'])
     free = [b for b in range(n + 1) if not t['glue'][b]]
     vs.append(Variant({'sites': [{'b': b, 'k': 'sp', 'pos': 'L'}
                                  for b in free], 'wraps': [], 'semi': 0}))
+    if t['id'] not in extra_ids:
+      continue
     for _ in range(prof['sampled_sites']):
       b = rng.choice(free)
       k = rng.choice(['sp', 'nl', 'hash', 'block'])
@@ -494,13 +520,7 @@ def Run(tier):
                      r3.distinct + r4.distinct), flush=True)
 
   # 3. contents of strings and comments
-  if prof['fill3_sample'] is not None:
-    short = [f for f in fills if len(f['syms']) <= prof['fill_len']]
-    long_ = [f for f in fills if len(f['syms']) > prof['fill_len']]
-    rng.shuffle(long_)
-    fills_used = short + long_[:prof['fill3_sample']]
-  else:
-    fills_used = fills
+  fills_used = fills
   stats['fills_used'] = len(fills_used)
   hosts = {}
   for form in ('dq', 'sq', 'tq'):
@@ -668,13 +688,27 @@ def Run(tier):
   known_lines = cls.Report()
 
   n_texts = sum(r['n'] for r in reports.values())
+  # non-trivial: the canonical text is accepted by both parsers and the
+  # variant's text differs from it (so "same tree" is not vacuous)
+  nontrivial = set()
+  for rec in records:
+    if (rec['canon']['py']['st'] == 'ok' and rec['canon']['cpp']['st'] == 'ok'):
+      ct = tuple(rec['canon']['text'])
+      if rec['kind'] != 'noise':
+        nontrivial.add((ct, ()))
+      for v in rec['vars']:
+        if tuple(v['text']) != ct or v['kind'] == 'sticky':
+          nontrivial.add((ct, tuple(v['text'])))
   coverage = {
       'states': tlc_states, 'transitions': tlc_trans,
       'traces_validated_against_impl': len(reports),
       'samples': Samples(records, 4),
       'evaluations': n_texts,
-      'distinct_nontrivial': len(parsed),
-      'rule': ('programs: every derivation of spec/LSyntaxGen.tla with <= %d '
+      'distinct_nontrivial': len(nontrivial),
+      'rule': ('non-trivial = distinct (canonical, variant) text pairs whose '
+               'canonical text both parsers accept and whose variant text '
+               'differs (plus each filled literal accepted by both); '
+               'programs: every derivation of spec/LSyntaxGen.tla with <= %d '
                'non-default productions in one statement (%d) + %d simulated '
                'larger programs; layouts: every single-site noise at every '
                'token boundary of %d programs, seeded single sites on the '
@@ -685,8 +719,8 @@ def Run(tier):
                'all verdicts by spec/LLexTrace.tla' % (
                    prof['ex_fuel'], len(ex_cases), len(sim_cases),
                    len(single_tc), len(places2), prof['fill_len'],
-                   '' if prof['fill3_sample'] is None else
-                   ' (+%d seeded of length 3)' % prof['fill3_sample'])),
+                   '' if not prof['fill3_sample'] else
+                   ' (+ simulated walks to length 3)')),
       'facts_checked_by_tlc': facts,
       'per_production': dict(sorted(cov.items())),
       'per_noise_kind': dict(per_noise),
